@@ -1,7 +1,7 @@
 (* Generic, pointwise (no functional extensionality) reasoning principles for the state+error monad of
    Kernel/Monad.v: monad laws, congruences, and a logical relation [orel] on results
    (outcome * world) that is preserved by [bind], [finally]/[scoped] and by the loops
-   [iter_src]/[loop_src] with different state types (simulation).  Used by Proofs/PylEquiv.v. *)
+   [iter_src]/[loop_src] with different state types (simulation).  Used by Proofs/PylEquivAgg.v and Proofs/PylEquivIter.v. *)
 From Coq Require Import List ZArith NArith Bool Arith Lia.
 Import ListNotations.
 Require Import V.Kernel.Values V.Kernel.Monad V.Model.Builtins.
@@ -185,3 +185,53 @@ Lemma loop_src_map {S1 S2} (g : S1 -> S2) i
   (forall s x w, body2 (g s) x w = bind (body1 s x) (fun r => ret (g (fst r), snd r)) w) ->
   forall s w, loop_src i body2 (g s) w = bind (loop_src i body1 s) (fun r => ret (g (fst r), snd r)) w.
 Proof. intros Hb s w. unfold loop_src at 1. rewrite (iter_src_map g i body1 body2 Hb). reflexivity. Qed.
+
+(* ---------- zip: the continuation is only ever applied to tuples of the right length ---------- *)
+Lemma pull_row_len : forall l pos w xs w',
+  pull_row pos l w = (Ok (Row xs), w') -> length xs = length l.
+Proof.
+  induction l as [|i r IH]; intros pos w xs w' H.
+  - cbn in H. inversion H. reflexivity.
+  - cbn [pull_row] in H. unfold bind in H.
+    destruct (pull i w) as [[[x|]|e|] w1]; try discriminate H.
+    destruct (pull_row (S pos) r w1) as [[[ys|p]|e|] w2] eqn:Hr; try discriminate H.
+    cbn in H. inversion H. subst xs w'. cbn [length]. f_equal. eapply IH, Hr.
+Qed.
+
+Lemma zip_loop_cong ss (k1 k2 : val -> M unit) :
+  (forall xs w, length xs = length ss -> k1 (VTup xs) w = k2 (VTup xs) w) ->
+  forall n w, zip_loop n ss k1 w = zip_loop n ss k2 w.
+Proof.
+  intros Hk. induction n as [|n IHn]; intros w; [reflexivity|].
+  cbn [zip_loop]. unfold bind at 1 3.
+  destruct (pull_row 0 ss w) as [[[xs|p]|e|] w1] eqn:Hrow; try reflexivity.
+  apply mbind_cong; [intros w2; apply Hk|intros _ w2; apply IHn].
+  eapply pull_row_len, Hrow.
+Qed.
+Lemma zip_strict_loop_cong ss (k1 k2 : val -> M unit) :
+  (forall xs w, length xs = length ss -> k1 (VTup xs) w = k2 (VTup xs) w) ->
+  forall n w, zip_strict_loop n ss k1 w = zip_strict_loop n ss k2 w.
+Proof.
+  intros Hk. induction n as [|n IHn]; intros w; [reflexivity|].
+  cbn [zip_strict_loop]. unfold bind at 1 3.
+  destruct (pull_row 0 ss w) as [[[xs|p]|e|] w1] eqn:Hrow; try reflexivity.
+  apply mbind_cong; [intros w2; apply Hk|intros _ w2; apply IHn].
+  eapply pull_row_len, Hrow.
+Qed.
+Lemma zip_inner_cong strict ss (k1 k2 : val -> M unit) :
+  (forall xs w, length xs = length ss -> k1 (VTup xs) w = k2 (VTup xs) w) ->
+  forall w, zip_inner strict ss k1 w = zip_inner strict ss k2 w.
+Proof.
+  intros Hk w. unfold zip_inner, with_fuel.
+  destruct strict; [apply zip_strict_loop_cong|apply zip_loop_cong]; exact Hk.
+Qed.
+Lemma a_zip_cong strict ss (k1 k2 : val -> M unit) :
+  (forall xs w, length xs = length ss -> k1 (VTup xs) w = k2 (VTup xs) w) ->
+  forall w, a_zip strict ss k1 w = a_zip strict ss k2 w.
+Proof.
+  intros Hk w. unfold a_zip. destruct ss as [|i r]; [reflexivity|].
+  apply finally_cong; [apply zip_inner_cong; exact Hk|reflexivity].
+Qed.
+
+Print Assumptions zip_inner_cong.
+Print Assumptions a_zip_cong.
